@@ -102,6 +102,6 @@ pub fn check() -> Check {
         "2-5 transactions per case on the standard world: generated manifests (withdraw / deposit / mint fungible, explicit-id and RUID non-fungibles / burn from buckets and vaults / recall / freeze / proofs / fee from faucet or accounts; succeeding and failing), hand-shaped validator stake / unstake / claim and one-resource-pool contribute / redeem transactions with generated amounts, rejected transactions, and consensus rounds ending the epoch (emissions). Oracle per committed transaction and per resource: sum over all vaults of (balance after - before), decoded from the raw vault substates by the harness's own full scan, equals minted - burnt according to the Mint/Burn events (XRD: the fee burn event, which must equal fee_destination.to_burn), to the TotalSupply substate delta (tracked resources), and to the manifest model when the transaction behaved as the model predicts; non-fungibles by id sets. The receipt's vault_balance_changes is compared with the substates as a consistency check. free_credit_in_xrd must be 0. Non-trivial = a successful commit that changed >= 2 resources or minted / burnt.",
     )
     .assume("vault balances are decoded with the repository's substate types by vf-world's scan (enumeration and summation are the harness's own)")
-    .part(Part::new("transactions", 1500, 75_000, 900, case))
+    .part(Part::new("transactions", 1500, 60_000, 900, case))
     .min_nontrivial_pct(30.0)
 }
